@@ -1041,9 +1041,9 @@ def classBody (env : Env) (fuel : Nat) (c : Class) (indent : String) : G String 
     let innerText ← innerClassesG (fun ic => createClassString env fuel ic inner true) (c.classes.filter (·.isPublic))
     let (methodText, methodNames) ← createClassMethodString env c.methods inner
     let alreadyDefined := unionSet (unionSet attrNames methodNames) ((c.classes.filter (·.isPublic)).map (·.name))
-    let (superInfo, superMethodsText, nNames) ← (if !c.superclasses.isEmpty && !c.isAbstract then do
+    let (superInfo, superMethodsText, nNames) ← (if !c.renderedSupers.isEmpty && !c.isAbstract then do
         let (names, text) ← superclassesG env
-          (fun sc => createInternalClassString env fuel sc inner alreadyDefined) c.superclasses
+          (fun sc => createInternalClassString env fuel sc inner alreadyDefined) c.renderedSupers
         pure (if names.isEmpty then "" else " sub " ++ joinWith ", " names, text, names.length)
       else pure ("", "", 0) : G (String × String × Nat))
     if nNames > 1 then addTodo "multiple_inheritance"
@@ -2084,7 +2084,7 @@ def genericKeys (c : Class) : List String :=
 
 /-- number of superclass names after `sub` -/
 def superCount (c : Class) : Nat :=
-  if !c.superclasses.isEmpty && !c.isAbstract then (publicSuperNames c.superclasses).length else 0
+  if !c.renderedSupers.isEmpty && !c.isAbstract then (publicSuperNames c.renderedSupers).length else 0
 
 /-- the marker a class deserves for its superclass list -/
 def inheritanceKeys (c : Class) : List String :=
@@ -2161,7 +2161,7 @@ theorem classBody_markers (env : Env) (fuel : Nat) (c : Class) (indent : String)
     refine ⟨fun hc => ?_, fun hc => ?_⟩
     · rw [wp_bind]
       refine wp_conseq (superclassesG_spec env
-        (fun sc => createInternalClassString_keeps_mk env fuel sc _ _) c.superclasses s6 h6) ?_
+        (fun sc => createInternalClassString_keeps_mk env fuel sc _ _) c.renderedSupers s6 h6) ?_
       intro ⟨names, text⟩ s7 ⟨h7, hn⟩
       rw [wp_pure]
       simp only at hn
